@@ -214,9 +214,18 @@ pub fn mutate_text(src: &mut Src, s: &str) -> String {
     let n = src.range(1, 2);
     for _ in 0..n {
         let i = src.below(v.len());
-        match src.below(7) {
+        match src.below(9) {
             0 => {
                 v.remove(i);
+            }
+            7 | 8 => {
+                // characters outside the descriptor charset: controls, DEL, upper case, non-ASCII
+                let c = *src.pick(&['\u{0}', '\t', '\n', '\u{1f}', '\u{7f}', '\u{80}', '\u{a0}', '\u{e9}', '\u{20ac}', '\u{1f600}', '\u{fffd}', 'A', 'Z', 'Q', '"', '\\', '`', '~', '|', '!', '$', '%', '&', '+', '-', '.', '=', '?', '[', ']', '^']);
+                if src.bool() {
+                    v[i] = c;
+                } else {
+                    v.insert(i, c);
+                }
             }
             1 => {
                 let c = v[i];
@@ -350,13 +359,20 @@ impl Check for C10 {
             "descriptor" => {
                 let kind = pick_kind(src);
                 let size = src.range(1, 8);
-                let d = gen::gen_desc(src, kind, &|ctx| {
+                let mut d = gen::gen_desc(src, kind, &|ctx| {
                     let mut c = Cfg::sane(ctx, size);
                     c.key_style = KeyStyle::Rich;
                     c.allow_uncompressed = true;
                     c.xpub_chance = 2;
                     c
                 });
+                // "taproot trees of any shape": now and then a tree from C15's shape generator
+                // (spines down to the BIP341 maximum depth with bushy bottoms, combs, balanced)
+                if src.chance(1, 40) {
+                    let mut next = src.below(40);
+                    let t = crate::checks::c15::gen_shape(src, &mut next, false);
+                    d = crate::mdesc::MDesc::Tr(keys::key_xonly(src.below(12)), Some(t));
+                }
                 let wild = *src.pick(&[0u8, 0, 1, 2]);
                 let multi = *src.pick(&[0usize, 0, 2, 3, 4]);
                 let t = d.map_keys(&mut |k| templatize(k, wild, multi, src));
@@ -628,8 +644,13 @@ impl Check for C10 {
                     }
                     let old = v[i];
                     if i > hash_pos {
-                        // checksum symbol: any other checksum symbol (one 5-bit symbol error)
-                        let c = *src.pick(&cset);
+                        // checksum symbol: any other checksum symbol (one 5-bit symbol error), or
+                        // (1/3) any other printable character -- its upper-case twin first of all
+                        let c = match src.below(6) {
+                            0 => old.to_ascii_uppercase(),
+                            1 => (0x20u8 + src.below(95) as u8) as char,
+                            _ => *src.pick(&cset),
+                        };
                         if c == old {
                             continue;
                         }
@@ -651,6 +672,22 @@ impl Check for C10 {
                         v[i] = c;
                     }
                     positions.push(i);
+                }
+                // or: a checksum of the wrong length (a symbol dropped / doubled / appended)
+                if src.chance(1, 10) {
+                    positions.clear();
+                    let tail = hash_pos + 1 + src.below(8);
+                    match src.below(3) {
+                        0 => {
+                            v.remove(tail);
+                        }
+                        1 => {
+                            let c = v[tail];
+                            v.insert(tail, c);
+                        }
+                        _ => v.push(*src.pick(&cset)),
+                    }
+                    positions.push(tail);
                 }
                 if positions.is_empty() {
                     return Ok(());
